@@ -240,3 +240,35 @@ def transceiver_aliases(names: List[str], base: str) -> bool:
     trx = eq['Transceiver']
     return sorted(trx) == sorted(names + [base]) and all(trx[n].type_variety == n for n in trx) and \
         all(trx[n].mode == trx[base].mode and not hasattr(trx[n], 'other_name') for n in trx)
+
+
+def edfa_aliases(names: List[str], base: str) -> bool:
+    """
+    pre: 1 <= len(names) <= 2 and all(1 <= len(n) <= 2 for n in names) and 1 <= len(base) <= 2
+    pre: len(set(names + [base])) == len(names) + 1
+    post: __return__
+    """
+    # an amplifier library entry with other_name aliases: every name is present, reports itself, and carries the same model
+    entry = {'type_variety': base, 'other_name': list(names), 'type_def': 'fixed_gain', 'gain_flatmax': 21, 'gain_min': 20, 'p_max': 21,
+             'nf0': 5.5, 'allowed_for_design': False}
+    eq = _equipment_from_json({'Edfa': [entry]}, {})
+    amps = eq['Edfa']
+    return sorted(amps) == sorted(names + [base]) and all(amps[n].type_variety == n for n in amps) and \
+        all(amps[n].gain_flatmax == 21 and amps[n].p_max == 21 and amps[n].type_def == 'fixed_gain' for n in amps)
+
+
+def mode_aliases(names: List[str], base: str) -> bool:
+    """
+    pre: 1 <= len(names) <= 2 and all(1 <= len(n) <= 2 for n in names) and 1 <= len(base) <= 2
+    pre: len(set(names + [base])) == len(names) + 1
+    post: __return__
+    """
+    # a transceiver mode with other_name aliases: one mode per name, each reporting its own format, same parameters
+    entry = {'type_variety': 'T', 'frequency': {'min': 191.3e12, 'max': 196.1e12},
+             'mode': [{'format': base, 'other_name': list(names), 'baud_rate': 32e9, 'OSNR': 11, 'bit_rate': 100e9, 'roll_off': 0.15,
+                       'tx_osnr': 40, 'min_spacing': 37.5e9, 'cost': 1}]}
+    eq = _equipment_from_json({'Transceiver': [entry]}, {})
+    modes = eq['Transceiver']['T'].mode
+    fm = [m['format'] for m in modes]
+    return sorted(fm) == sorted(names + [base]) and all('other_name' not in m for m in modes) and \
+        all(m['baud_rate'] == 32e9 and m['OSNR'] == 11 and m['bit_rate'] == 100e9 for m in modes)
